@@ -24,6 +24,7 @@ from .terms import subterms, show, is_num, NONE
 ANY = 'ANY'
 NA = 'NA'
 UNK = 'UNK'
+NZ = 'NZ'      # affine mode: a non-zero charge of unknown size (charged value * k)
 ZERO = Fraction(0)
 
 DIMLESS_ONLY = {'exp', 'sin', 'cos', 'tan', 'log', 'arctan', 'arccos', 'arcsin',
@@ -95,6 +96,17 @@ class Weigher:
         if a == NA or b == NA:
             # None / object mixed with a number (e.g. default None): take the number
             return b if a == NA else a
+        if a == NZ or b == NZ:
+            other = b if a == NZ else a
+            if other == NZ:
+                return NZ
+            if other == ZERO:
+                return self.conflict('%s have different %s-weights: one is shifted, the '
+                                     'other is not, in %s' % (what, self.name,
+                                                              show(t)[:200]), t)
+            if isinstance(other, Fraction):
+                return self.unknown('scaled and unscaled %s-charges meet in %s' % (
+                    self.name, show(t)[:160]), t)
         if isinstance(a, Fraction) and isinstance(b, Fraction):
             if a == b:
                 return a
@@ -109,13 +121,15 @@ class Weigher:
                 items = tuple(self.unify(x, y, t, what) for x, y in zip(a[1], b[1]))
                 return UNK if UNK in items else ('seq', items)
             return self.unknown('sequences of different length in %s' % show(t)[:120], t)
-        if isinstance(a, tuple) and a[0] in ('seq', 'T') and isinstance(b, Fraction):
+        if isinstance(a, tuple) and a[0] in ('seq', 'T') and (isinstance(b, Fraction)
+                                                              or b == NZ):
             inner = a[1][1] if a[0] == 'T' else a[1]
             items = tuple(self.unify(x, b, t, what) for x in inner)
             if UNK in items:
                 return UNK
             return ('T', ('seq', items)) if a[0] == 'T' else ('seq', items)
-        if isinstance(b, tuple) and b[0] in ('seq', 'T') and isinstance(a, Fraction):
+        if isinstance(b, tuple) and b[0] in ('seq', 'T') and (isinstance(a, Fraction)
+                                                              or a == NZ):
             return self.unify(b, a, t, what)
         if isinstance(a, tuple) and a[0] == 'dict' and isinstance(b, tuple) \
                 and b[0] == 'dict':
@@ -128,6 +142,8 @@ class Weigher:
             return a
         if a == ANY:
             return ANY
+        if a == NZ:
+            return NZ
         if isinstance(a, Fraction):
             return f(a)
         if a[0] == 'seq':
@@ -150,6 +166,15 @@ class Weigher:
         if b == ANY:
             return ANY if sign > 0 else self.unknown(
                 'division by a polymorphic zero/inf in %s' % show(t)[:100], t)
+        if a == NZ or b == NZ:
+            other = b if a == NZ else a
+            if other == ZERO:
+                return NZ
+            if isinstance(other, tuple):
+                return self.mapw(lambda x: NZ if x == ZERO else UNK, other)
+            return self.unknown('two shifted quantities, one of them rescaled, are '
+                                'combined in %s: cannot tell whether the shifts '
+                                'cancel' % show(t)[:160], t)
         if isinstance(a, Fraction) and isinstance(b, Fraction):
             return a + sign * b
         if isinstance(a, tuple) and isinstance(b, Fraction):
@@ -491,10 +516,15 @@ class Weigher:
             return UNK
         if self.is_inv(a, t) and self.is_inv(b, t):
             return ZERO
+        if op in ('*', '/') and (self.is_inv(a, t) or self.is_inv(b, t)) and \
+                not (op == '/' and self.is_inv(a, t)):
+            # (x + c s) * k = x k + (c k) s: still shifted, by an amount we do not
+            # track -- a definite non-zero charge (k is not identically zero)
+            ch = b if self.is_inv(a, t) else a
+            return self.mapw(lambda x: ZERO if x == ZERO else NZ, ch)
         if op in ('*', '/', '//', '@', '**'):
-            # (x + a) * k = x*k + a*k: the charge becomes k -- not modelled
-            return self.unknown('a %s-charged value is scaled before it is '
-                                'differenced: %s' % (self.name, show(t)[:160]), t)
+            return self.unknown('%s-charged values are multiplied / divided: %s' % (
+                self.name, show(t)[:160]), t)
         if op == '%':
             if self.is_inv(b, t):
                 return a       # (phi + c) mod period keeps the charge
